@@ -56,6 +56,12 @@ CHECKS = {
     "C16": dict(tech="offline trace oracle: FIFO model of stashed event tokens per module, stash admission rules, unstash(n) return value and the single directly nested handler invocation with exactly the oldest events; stash_become profile; plain build, both modes",
                 text="Generated stash/unstash(n) sequences (n from 1 to beyond the stash size and SIZE_MAX, from handlers and from outside, interleaved with deliveries, handler changes and stop/start) are judged call by call against a FIFO model using unique event tokens.",
                 ref="C16/C17"),
+    "C15": dict(tech="offline trace oracle: name table (live names, allow-replace), deny-pub/deny-sub/deny-ctx/persist/reserved-prefix rules applied to every restricted call with the callback stack known, refused sends tracked by unique payload so that 'nothing is delivered' is checked; perms profile (flag subsets x call classes x callback kinds x nesting); plain build, both modes",
+                text="Every restricted call in generated histories is judged with the flags of the calling module and the callback it was issued from: it must fail and leave no trace (no delivery, same source count, loop not quit, module still registered); equal names are registered in every order against incumbents with and without allow-replace.",
+                ref="C15"),
+    "C07": dict(tech="offline trace oracle: context existence / persistence / finalised model against return codes and the context observed (m_ctx_name, m_ctx_len) after every record, teardown post-conditions (all modules ZOMBIE, one stop callback each), calls without context incl. before the first registration of the process; ctx_lifecycle profile on plain and asan builds",
+                text="Generated register / finalize / loop / deregister cycles with every flag combination and module state mix are judged call by call; the asan build is included because an uncreated thread-specific key collides with the sanitizer's own keys.",
+                ref="C07"),
     "C17": dict(tech="offline trace oracle: handler-stack model per module checked at every handler invocation (4 distinguishable handler functions), become/unbecome admission and return codes, stack reset at stop; stash_become profile; plain build, both modes",
                 text="Every handler invocation, including stash replays, is attributed to the handler function that received it and compared with the top of the modelled stack; become/unbecome return codes and the reset at stop are judged call by call.",
                 ref="C16/C17"),
